@@ -437,6 +437,11 @@ def run(ctx):
         # mask decimation between consecutive levels (left image): coarser = finer[::sf, ::sf]
         for b in rec["mc"][1:]:
             margs.append((4, [case["sf"], enc_z_grid(mask_src(b, invalid_bits, filled))]))
+        # executions and image sizes prescribed by Spec.spec_trace / Model.image_sizes
+        kinds = [nm.split(".")[0] for nm in names]
+        ims = kinds.index("multiscale")
+        wire = [[i, pu.KIND_CODE[k]] for i, k in enumerate(kinds)]
+        margs.append((7, [case["n"], case["rows"], case["cols"], case["sf"], with_right, wire[:ims], wire[ims], wire[ims + 1:]]))
         # the extracted spec checker on the observed grids of every finer level
         if err is None:
             for _lvl, _nxt, _side, arg in checker_jobs(case, rec, with_right):
@@ -476,6 +481,8 @@ def run(ctx):
         for _ in rec["mc"][1:]:
             m_masks.append(mres[k])
             k += 1
+        m_exec, m_out = mres[k]
+        k += 1
         if err is not None:
             ctx.violation("run_failed", f"{desc}: pandora.run raised {err}", replay)
             continue
@@ -503,6 +510,16 @@ def run(ctx):
                         grid_matches(gr[0], e["rdmin"], e["rdmax"], exact=(sf == 2))
                 if why is not None:
                     ctx.mismatch("grids", {"scale": e["scale"], **replay}, why, "see model")
+        # Spec.spec_trace against the callbacks observed on the machine; Model.image_sizes / output_size against the
+        # images seen by the matching_cost executions and the returned map
+        m_trace = [(names[e[0]], e[2], bool(e[3])) for e in m_exec]
+        if m_trace != trace:
+            ctx.mismatch("spec_trace", replay, trace, m_trace)
+        m_mc_sizes = [(e[2], (e[4], e[5])) for e in m_exec if e[1] == pu.KIND_CODE["matching_cost"] and not e[3]]
+        if m_mc_sizes != [(e["scale"], tuple(e["shape"])) for e in rec["mc"]]:
+            ctx.mismatch("image_sizes", replay, [(e["scale"], tuple(e["shape"])) for e in rec["mc"]], m_mc_sizes)
+        if tuple(m_out) != tuple(out_l["disparity_map"].shape):
+            ctx.mismatch("output_size", replay, tuple(out_l["disparity_map"].shape), tuple(m_out))
         for a, b, mm in zip(rec["mc"][:-1], rec["mc"][1:], m_masks):
             # a = coarser level, b = finer level
             got = None if a["msk"] is None else [a["msk"].shape[0], a["msk"].shape[1], enc_z_grid(a["msk"])]
